@@ -56,11 +56,15 @@ type Sched struct {
 	YearsUsed     map[int]bool
 	CyclesSeen    int
 	WindowSkipped bool // a cycle began inside a year's close window (0 < time to close < Window)
+	// Exceeded: years in which more was credited in total than the year's share. The statement bounds
+	// every block's pull by what was left when its cycle began, not the sum over a cycle, so this is
+	// recorded, not judged (it happens when a cycle's forecast is shorter than the cycle).
+	Exceeded map[int]bool
 }
 
 func NewSched(cycle, est, window int64, shares []*big.Int, burnout *big.Int) *Sched {
 	s := &Sched{Cycle: cycle, EstSecs: est, Window: window, Shares: shares, Burnout: burnout,
-		times: map[int64]time.Time{}, YearsUsed: map[int]bool{}, Year: -1}
+		times: map[int64]time.Time{}, YearsUsed: map[int]bool{}, Exceeded: map[int]bool{}, Year: -1}
 	for range shares {
 		s.dist = append(s.dist, new(big.Int))
 		s.till = append(s.till, new(big.Int))
@@ -160,6 +164,9 @@ func (s *Sched) Observe(h int64, credited *big.Int) {
 		return
 	}
 	s.dist[s.Year].Add(s.dist[s.Year], credited)
+	if s.dist[s.Year].Cmp(s.Shares[s.Year]) > 0 {
+		s.Exceeded[s.Year] = true
+	}
 	if h%s.Cycle == 0 {
 		s.till[s.Year] = new(big.Int).Set(s.dist[s.Year])
 	}
